@@ -934,6 +934,24 @@ func c12Run(c c12Case) (oracle string) {
 
 func runC12(h *H) {
 	only := h.Args["kind"]
+	if only == "" || only == "pool" {
+		// cold start: the first use of every compression method in this process is made by several pooled connections
+		// at once (state that is set up lazily on first use and shared between clients shows only then)
+		for _, comp := range []ch.Compression{ch.CompressionZSTD, ch.CompressionLZ4, ch.CompressionNone, ch.CompressionLZ4HC} {
+			c := c12Case{kind: "pool", comp: comp, users: 6, iters: 3, maxConns: 6, healthUS: 1000, idleUS: 100000, lifeUS: 1000000}
+			c.ops = make([][]int, c.users)
+			for u := range c.ops {
+				c.ops[u] = []int{c12OpDo, c12OpDo, c12OpDo}
+			}
+			name := c.String()
+			fmt.Fprintf(os.Stderr, "C12CASE %d %s\n", h.Count, name)
+			oracle := c12Run(c)
+			fmt.Fprintf(os.Stderr, "C12END %d\n", h.Count)
+			h.Emit(name, "-", oracle)
+			h.Stat("kind:pool-cold-start")
+			h.Stat("comp:" + c12CompSym(c.comp))
+		}
+	}
 	for i := 0; h.Count < h.N; i++ {
 		c := c12Gen(h, i)
 		if only != "" && !strings.HasPrefix(c.kind, only) && !strings.HasSuffix(c.kind, only) {
